@@ -20,6 +20,10 @@ The checked name must be a parameter of the function that has not been reassigne
 SHAPE is a tuple of int literals, -1, names bound by an earlier check of the same function, `self.<attr>`,
 and `-1 if k is None else k`.
 
+Module-private helpers (`_f`, `Class._m`) are not entries of their own: the checks they perform on arguments that are
+parameters of the calling function are spliced into the caller's contract at the call (program order; the caller's
+normalisation state of the argument applies), checks on values the caller computed itself are internal and dropped.
+
 FAIL CLOSED: anything else that involves one of the check functions (a check inside some other kind of
 conditional / loop / try / with / comprehension / lambda, a check used as an expression, an unknown
 `vg.shape.*` helper, a shape expression outside the grammar, a `return` that can skip a later check, a
@@ -28,6 +32,7 @@ treats that as a broken tie.
 """
 import ast
 import os
+import re
 
 CHECK_ATTRS = {"check", "check_value"}
 LOCAL_HELPERS = {"check_shape_any", "columnize"}
@@ -88,8 +93,11 @@ def check_kind(call, helpers):
 
 
 class FunctionExtractor:
-    def __init__(self, path, helpers, fn):
+    def __init__(self, path, helpers, fn, private=None, cls=None):
         self.path, self.helpers, self.fn = path, helpers, fn
+        # private helpers of the module: {"_f": qualified name} and, for methods of this class, {"self._m": qualified name}
+        self.private = private or {}
+        self.cls = cls
         self.checks = []          # Coq terms, in order
         self.bound = set()        # names bound by an earlier check
         self.shape_alias = {}     # name -> arg whose .shape it holds
@@ -168,18 +176,45 @@ class FunctionExtractor:
         _err(self.path, call, "`%s` is reassigned before its shape check (the check is not about the argument)" % name)
 
     @staticmethod
-    def is_astype(st):
-        return (isinstance(st, ast.Assign) and len(st.targets) == 1 and isinstance(st.targets[0], ast.Name)
-                and isinstance(st.value, ast.Call) and isinstance(st.value.func, ast.Attribute)
-                and st.value.func.attr == "astype" and isinstance(st.value.func.value, ast.Name)
-                and st.value.func.value.id == st.targets[0].id and len(st.value.args) == 1 and not st.value.keywords)
-
-    @staticmethod
-    def is_asarray(st):
-        return (isinstance(st, ast.Assign) and len(st.targets) == 1 and isinstance(st.targets[0], ast.Name)
-                and isinstance(st.value, ast.Call) and _attr_chain(st.value.func) in (["np", "asarray"], ["np", "array"])
-                and len(st.value.args) == 1 and isinstance(st.value.args[0], ast.Name)
-                and st.value.args[0].id == st.targets[0].id and set(k.arg for k in st.value.keywords) <= {"dtype"})
+    def normalisation(st):
+        """`x = E` where E is x, np.asarray(x[, dtype=..]) or np.array(x[, dtype=..]) followed by any number of
+        .astype(T) / .ravel() / .flatten() / .reshape(-1): returns (x, 'asarray' | 'flatten'), else None"""
+        if not (isinstance(st, ast.Assign) and len(st.targets) == 1 and isinstance(st.targets[0], ast.Name)):
+            return None
+        x, e, flat, steps = st.targets[0].id, st.value, False, 0
+        while isinstance(e, ast.Call) and isinstance(e.func, ast.Attribute) and _attr_chain(e.func) is None:
+            # a method call on a call result, e.g. np.asarray(x).ravel()
+            m = e.func.attr
+            if m == "astype" and len(e.args) == 1 and not e.keywords:
+                pass
+            elif m in ("ravel", "flatten") and not e.args and not e.keywords:
+                flat = True
+            elif (m == "reshape" and len(e.args) == 1 and not e.keywords and isinstance(e.args[0], ast.UnaryOp)
+                  and isinstance(e.args[0].op, ast.USub) and isinstance(e.args[0].operand, ast.Constant)
+                  and e.args[0].operand.value == 1):
+                flat = True
+            else:
+                return None
+            e, steps = e.func.value, steps + 1
+        if isinstance(e, ast.Call) and isinstance(e.func, ast.Attribute) and isinstance(e.func.value, ast.Name) \
+                and e.func.value.id == x:
+            # a method call directly on x, e.g. x.astype(T), x.flatten()
+            m = e.func.attr
+            if m == "astype" and len(e.args) == 1 and not e.keywords:
+                pass
+            elif m in ("ravel", "flatten") and not e.args and not e.keywords:
+                flat = True
+            elif (m == "reshape" and len(e.args) == 1 and not e.keywords and isinstance(e.args[0], ast.UnaryOp)
+                  and isinstance(e.args[0].op, ast.USub) and isinstance(e.args[0].operand, ast.Constant)
+                  and e.args[0].operand.value == 1):
+                flat = True
+            else:
+                return None
+            return x, ("flatten" if flat else "asarray")
+        if (isinstance(e, ast.Call) and _attr_chain(e.func) in (["np", "asarray"], ["np", "array"]) and len(e.args) == 1
+                and isinstance(e.args[0], ast.Name) and e.args[0].id == x and set(k.arg for k in e.keywords) <= {"dtype"}):
+            return x, ("flatten" if flat else "asarray")
+        return None
 
     # -- one check call -----------------------------------------------------------------------------------
     def one_check(self, call, target, loop_var=None):
@@ -297,6 +332,35 @@ class FunctionExtractor:
                 return t.left.id, False
         return None
 
+    def private_calls(self, st, wrap):
+        """calls of module-private helpers (`_f(...)`, `self._m(...)`): their checks on arguments that are parameters of
+        this function belong to this function's contract (resolved by extract_module); recorded in program order"""
+        if not self.private:
+            return
+        simple = isinstance(st, (ast.Assign, ast.AugAssign, ast.AnnAssign, ast.Expr, ast.Return)) and wrap is None
+        calls = []
+        for x in walk_no_defs(st):
+            if not isinstance(x, ast.Call):
+                continue
+            key = None
+            if isinstance(x.func, ast.Name) and x.func.id in self.private:
+                key = x.func.id
+            elif (isinstance(x.func, ast.Attribute) and isinstance(x.func.value, ast.Name)
+                  and x.func.value.id in ("self", "cls") and ("self." + x.func.attr) in self.private):
+                key = "self." + x.func.attr
+            if key is not None:
+                calls.append((x.lineno, x.col_offset, key, x))
+        for _, _, key, x in sorted(calls, key=lambda t: t[:2]):
+            def state(e):
+                if isinstance(e, ast.Name) and e.id in self.params:
+                    how = self.stored.get(e.id)
+                    return (e.id, "plain" if how in (None, "asarray") else ("flat" if how == "flatten" else None))
+                return (None, None)
+            star = any(isinstance(a, ast.Starred) for a in x.args) or any(k.arg is None for k in x.keywords)
+            self.checks.append(("CALL", self.private[key], [state(a) for a in x.args],
+                                {k.arg: state(k.value) for k in x.keywords if k.arg}, not simple, star, x.lineno))
+            self.last_check_line = max(self.last_check_line, 0)
+
     def block(self, stmts, wrap=None):
         for st in stmts:
             self.stmt(st, wrap)
@@ -312,6 +376,7 @@ class FunctionExtractor:
         for x in walk_no_defs(st):
             if isinstance(x, ast.Return):
                 self.returns.append(x.lineno)
+        self.private_calls(st, wrap)
         sc = self.stmt_check(st)
         if sc:
             call, target = sc
@@ -319,36 +384,26 @@ class FunctionExtractor:
             if target is not None:
                 self.record_stores(target)
             return
-        # x = np.asarray(x, ...) / np.array(x, ...): the shape of an array argument is unchanged
-        if (isinstance(st, ast.Assign) and len(st.targets) == 1 and isinstance(st.targets[0], ast.Name)
-                and isinstance(st.value, ast.Call) and _attr_chain(st.value.func) in (["np", "asarray"], ["np", "array"])
-                and st.value.args and isinstance(st.value.args[0], ast.Name) and st.value.args[0].id == st.targets[0].id
-                and len(st.value.args) == 1 and set(k.arg for k in st.value.keywords) <= {"dtype"}):
-            if self.stored.get(st.targets[0].id) in (None, "asarray"):
-                self.stored[st.targets[0].id] = "asarray"
-            return
-        # x = x.astype(<dtype>): the shape is unchanged
-        if self.is_astype(st):
-            if self.stored.get(st.targets[0].id) in (None, "asarray"):
-                self.stored[st.targets[0].id] = "asarray"
-            return
-        # if <test about x only>: x = x.astype(...) / x = np.asarray(x, ...)   (plain `if`, no else): shape-preserving
+        # x = <normalisation chain of x>: np.asarray / np.array (dtype only), .astype(T) keep the shape;
+        # .ravel() / .flatten() / .reshape(-1) flatten it (later checks of x are about the flattened array)
+        nk = self.normalisation(st)
+        if nk is not None:
+            name, kind = nk
+            if kind == "asarray" and self.stored.get(name) in (None, "asarray"):
+                self.stored[name] = "asarray"
+                return
+            if kind == "flatten" and self.stored.get(name) in (None, "asarray", "flatten"):
+                self.stored[name] = "flatten"
+                return
+        # if <test about x only>: x = <shape-preserving normalisation of x>   (plain `if`, no else)
         if (isinstance(st, ast.If) and not st.orelse and st.body
-                and all(self.is_astype(b) or self.is_asarray(b) for b in st.body)):
+                and all((self.normalisation(b) or (None, None))[1] == "asarray" for b in st.body)):
             names = {b.targets[0].id for b in st.body}
             used = {x.id for x in ast.walk(st.test) if isinstance(x, ast.Name)}
             if used <= names | {"np"} and all(self.stored.get(n) in (None, "asarray") for n in names):
                 for n in names:
                     self.stored[n] = "asarray"
                 return
-        # x = x.flatten(): later checks of x are about the flattened array
-        if (isinstance(st, ast.Assign) and len(st.targets) == 1 and isinstance(st.targets[0], ast.Name)
-                and isinstance(st.value, ast.Call) and not st.value.args and not st.value.keywords
-                and isinstance(st.value.func, ast.Attribute) and st.value.func.attr == "flatten"
-                and isinstance(st.value.func.value, ast.Name) and st.value.func.value.id == st.targets[0].id):
-            if self.stored.get(st.targets[0].id) in (None, "asarray", "flatten"):
-                self.stored[st.targets[0].id] = "flatten"
-            return
         # if not hasattr(x, "__iter__"): x = [x]   -- promotes a Python scalar; never taken for an ndarray
         if (isinstance(st, ast.If) and not st.orelse and len(st.body) == 1 and isinstance(st.test, ast.UnaryOp)
                 and isinstance(st.test.op, ast.Not) and isinstance(st.test.operand, ast.Call)
@@ -506,8 +561,21 @@ def extract_module(modname, path):
     tree = ast.parse(src, filename=path)
     helpers = local_helpers(path, tree)
     out = {}
+    params_of = {}
 
-    def visit(body, prefix):
+    def is_private(name):
+        return name.startswith("_") and not (name.startswith("__") and name.endswith("__"))
+
+    # module-private helpers: module-level `_f` and methods `_m` of a class (called as self._m / cls._m)
+    private_fns = {st.name: modname + "." + st.name for st in tree.body
+                   if isinstance(st, (ast.FunctionDef, ast.AsyncFunctionDef)) and is_private(st.name)}
+    private_methods = {}
+    for c in tree.body:
+        if isinstance(c, ast.ClassDef):
+            private_methods[c.name] = {"self." + st.name: modname + "." + c.name + "." + st.name for st in c.body
+                                       if isinstance(st, (ast.FunctionDef, ast.AsyncFunctionDef)) and is_private(st.name)}
+
+    def visit(body, prefix, cls=None):
         for st in body:
             if isinstance(st, (ast.FunctionDef, ast.AsyncFunctionDef)):
                 q = prefix + st.name
@@ -518,10 +586,18 @@ def extract_module(modname, path):
                         q = q + "." + ch[-1]
                 if q in out:
                     _err(path, st, "duplicate definition of %s" % q)
-                out[q] = FunctionExtractor(path, helpers, st).run()
-                visit(st.body, q + ".<locals>.")
+                table = dict(private_fns)
+                if cls is not None:
+                    table.update(private_methods.get(cls, {}))
+                fx = FunctionExtractor(path, helpers, st, private=table, cls=cls)
+                out[q] = fx.run()
+                ps = [a.arg for a in st.args.posonlyargs + st.args.args]
+                if cls is not None and ps and ps[0] in ("self", "cls"):
+                    ps = ps[1:]
+                params_of[q] = (ps, [a.arg for a in st.args.kwonlyargs])
+                visit(st.body, q + ".<locals>.", cls)
             elif isinstance(st, ast.ClassDef):
-                visit(st.body, prefix + st.name + ".")
+                visit(st.body, prefix + st.name + ".", st.name if prefix == modname + "." else cls)
             elif isinstance(st, (ast.If, ast.Try, ast.With, ast.For, ast.While)):
                 for x in ast.walk(st):
                     if isinstance(x, (ast.FunctionDef, ast.AsyncFunctionDef, ast.ClassDef)):
@@ -537,7 +613,74 @@ def extract_module(modname, path):
                     for y in ast.walk(x):
                         if isinstance(y, ast.Call) and check_kind(y, helpers):
                             _err(path, y, "shape check inside a lambda")
-    return out
+    return resolve_private(path, out, params_of, set(private_fns.values()) |
+                           {q for m in private_methods.values() for q in m.values()})
+
+
+_TERM = re.compile(r'^(?P<pre>(?:IfPresent "(?P<opt>\w+)" \()?)(?P<kind>Check|CheckAny|Columnize|CheckFlat|CheckEach|NeedsShape) '
+                   r'"(?P<arg>\w+)"(?P<rest>.*)$')
+
+
+def resolve_private(path, out, params_of, private):
+    """splice the checks that a module-private helper performs on arguments which are parameters of its caller into the
+    caller's contract (in program order), then drop the private helpers themselves: contracts are about the API"""
+    done = {}
+
+    def resolve(q, stack=()):
+        if q in done:
+            return done[q]
+        if q in stack:
+            raise ExtractError("%s: recursive private helpers %s" % (path, q))
+        res = []
+        for item in out[q]:
+            if isinstance(item, str):
+                res.append(item)
+                continue
+            _, callee, pos, kws, conditional, star, line = item
+            if callee not in out:
+                raise ExtractError("%s:%d: private helper %s not found" % (path, line, callee))
+            inner = resolve(callee, stack + (q,))
+            if not inner:
+                continue
+            if star:
+                raise ExtractError("%s:%d: star-arguments to the checking private helper %s" % (path, line, callee))
+            ps, kwonly = params_of[callee]
+            amap = {}
+            for p, st_ in zip(ps, pos):
+                amap[p] = st_
+            for k, st_ in kws.items():
+                amap[k] = st_
+            kept = []
+            for term in inner:
+                if term.startswith("CheckSame"):
+                    raise ExtractError("%s:%d: same-shape check inside the private helper %s" % (path, line, callee))
+                m = _TERM.match(term)
+                if not m:
+                    raise ExtractError("%s:%d: cannot re-target %r of private helper %s" % (path, line, term, callee))
+                name, mode = amap.get(m.group("arg"), (None, None))
+                if name is None:
+                    continue          # the helper checks a value computed by the caller, not one of its arguments
+                if '(Some "' in term or "DVar" in term:
+                    raise ExtractError("%s:%d: private helper %s binds / uses length names" % (path, line, callee))
+                if m.group("opt") and m.group("opt") != m.group("arg"):
+                    raise ExtractError("%s:%d: optional check on another name in %s" % (path, line, callee))
+                if mode == "flat":
+                    if m.group("kind") != "Check" or m.group("pre") or not m.group("rest").endswith(" None"):
+                        raise ExtractError("%s:%d: %s of a flattened argument in %s" % (path, line, m.group("kind"), callee))
+                    kept.append('CheckFlat "%s"%s' % (name, m.group("rest")[:-len(" None")]))
+                else:
+                    pre = m.group("pre").replace('"%s"' % m.group("arg"), '"%s"' % name)
+                    kept.append('%s%s "%s"%s' % (pre, m.group("kind"), name, m.group("rest")))
+            if kept and conditional:
+                raise ExtractError("%s:%d: private helper %s, which checks argument shapes, is called under a conditional / "
+                                   "inside a compound statement" % (path, line, callee))
+            res.extend(kept)
+        done[q] = res
+        return res
+
+    for q in list(out):
+        resolve(q)
+    return {q: done[q] for q in out if q not in private}
 
 
 def extract(repo):
